@@ -162,6 +162,18 @@ def special_docs(rng):
             DECL[text] = decl
             for eng in ("numpy", "normal"):
                 out.append((text, d, [[row[j] for row in vals] for j in range(c)], {"engine": eng}, "negative-exponent"))
+    # every data line holds a hyphen (negative numbers), only SOME lines hold a digit-hyphen-digit text token ('15-9', a well
+    # name; 'A-B' elsewhere): the text column stays one column in every row
+    for d, c in ((3, 3), (2, 3), (4, 3), (0, 3), (3, 4)):
+        for tags in (["15-9", "A-B", "x-y", "7-1"], ["A-B", "15-9", "B-C"], ["15-9", "N-1"], ["K-2", "x-y", "3-4", "z-w", "w-z"]):
+            r = len(tags)
+            rows = [[-(1000.0 * i + 1.5), tags[i]] + [-(10.0 * i + j + 0.25) for j in range(c - 2)] for i in range(r)]
+            body = [" ".join(x if isinstance(x, str) else repr(x) for x in row) for row in rows]
+            decl = dd.names(d)
+            text = dd.assemble(dd.header(declared=decl), "~A", body, [])
+            DECL[text] = decl
+            for eng in ("numpy", "normal"):
+                out.append((text, d, [[row[j] for row in rows] for j in range(c)], {"engine": eng}, "hyphen-tokens"))
     # the dtypes option: a dict / list for the DECLARED curves; whatever read succeeds keeps every data column
     for d, c in ((2, 2), (1, 3), (2, 4), (3, 2)):
         rows = [[float(1000 * i + j) for j in range(c)] for i in range(3)]
